@@ -40,9 +40,11 @@ import (
 	"net/http/httptest"
 	"net/url"
 	"os"
+	"runtime/pprof"
 	"sort"
 	"strconv"
 	"strings"
+	"sync"
 	"time"
 
 	config_util "github.com/prometheus/common/config"
@@ -506,6 +508,7 @@ func (e *env) load() {
 	o.SamplesPerChunk = e.spc
 	o.RetentionDuration = 0
 	o.WALSegmentSize = 128 * 1024
+	o.StripeSize = 32
 	db, err := tsdb.Open(e.dir, promslog.NewNopLogger(), nil, o, nil)
 	if err != nil {
 		e.loadErr = errTok(err)
@@ -543,7 +546,19 @@ func (e *env) load() {
 	phase(false)
 }
 
-func runCase(c *h.Ctx, ops []string) {
+// rec collects the lines and counters of one case (cases run concurrently, output stays ordered).
+type rec struct {
+	ops, outs []string
+	counts    []string
+}
+
+func (r *rec) Count(k string) { r.counts = append(r.counts, k) }
+func (r *rec) Op(op, out string) {
+	r.ops = append(r.ops, op)
+	r.outs = append(r.outs, out)
+}
+
+func runCase(c *rec, ops []string) {
 	e := &env{}
 	defer e.close()
 	for _, op := range ops {
@@ -603,7 +618,7 @@ func runCase(c *h.Ctx, ops []string) {
 	}
 }
 
-func (e *env) read(c *h.Ctx, f []string) (string, string) {
+func (e *env) read(c *rec, f []string) (string, string) {
 	typ := f[1]
 	frame, _ := strconv.Atoi(f[2])
 	limit, _ := strconv.Atoi(f[3])
@@ -936,19 +951,53 @@ func genCase(c *h.Ctx, k int) []string {
 	return ops
 }
 
+func emit(c *h.Ctx, id string, r *rec) {
+	c.Case(id)
+	for i := range r.ops {
+		c.Op(r.ops[i], r.outs[i])
+	}
+	for _, k := range r.counts {
+		c.Count(k)
+	}
+}
+
 func main() {
 	c := h.Init()
+	if pf := c.Extra["cpuprofile"]; pf != "" {
+		f, _ := os.Create(pf)
+		pprof.StartCPUProfile(f)
+		defer pprof.StopCPUProfile()
+	}
+	var ids []string
+	var cases [][]string
 	if c.Replay != "" {
 		for _, cs := range c.ReplayCases() {
-			c.Case(strings.TrimPrefix(cs[0], "case "))
-			runCase(c, cs[1:])
+			ids = append(ids, strings.TrimPrefix(cs[0], "case "))
+			cases = append(cases, cs[1:])
 		}
-		c.Finish()
-		return
+	} else {
+		for k := 0; k < c.N; k++ {
+			ids = append(ids, fmt.Sprintf("g%d", k))
+			cases = append(cases, genCase(c, k))
+		}
 	}
-	for k := 0; k < c.N; k++ {
-		c.Case(fmt.Sprintf("g%d", k))
-		runCase(c, genCase(c, k))
+	recs := make([]*rec, len(cases))
+	var wg sync.WaitGroup
+	sem := make(chan struct{}, 4)
+	for i := range cases {
+		wg.Add(1)
+		sem <- struct{}{}
+		go func(i int) {
+			defer wg.Done()
+			defer func() { <-sem }()
+			r := &rec{}
+			runCase(r, cases[i])
+			recs[i] = r
+		}(i)
+	}
+	wg.Wait()
+	for i := range cases {
+		emit(c, ids[i], recs[i])
 	}
 	c.Finish()
 }
